@@ -725,6 +725,60 @@ func ChangeLabelIndex(d dvid.Data, v dvid.VersionID, label uint64, delta labels.
 	return putCachedLabelIndex(d, v, idx)
 }
 
+// addToLabelIndex adds the given index to the label's stored index as a single read-modify-write
+// under the label's shard lock, and returns the stored result.
+func (d *Data) addToLabelIndex(v dvid.VersionID, label uint64, add *labels.Index, mutInfo dvid.MutInfo) (*labels.Index, error) {
+	shard := label % numIndexShards
+	indexMu[shard].Lock()
+	defer indexMu[shard].Unlock()
+
+	idx, err := getCachedLabelIndex(d, v, label)
+	if err != nil {
+		return nil, err
+	}
+	if idx == nil {
+		return nil, fmt.Errorf("can't merge into a non-existent label %d", label)
+	}
+	if err := idx.Add(add, mutInfo); err != nil {
+		return nil, err
+	}
+	idx.Label = label
+	if err := putCachedLabelIndex(d, v, idx); err != nil {
+		return nil, err
+	}
+	return idx, nil
+}
+
+// moveLabelIndex stores the index of origLabel under newLabel (if it has any blocks) and deletes it
+// under origLabel as a single step under origLabel's shard lock.  It returns the moved index, which
+// is nil if the original label had no blocks.
+func (d *Data) moveLabelIndex(v dvid.VersionID, origLabel, newLabel, mutID uint64, info dvid.ModInfo) (*labels.Index, error) {
+	shard := origLabel % numIndexShards
+	indexMu[shard].Lock()
+	defer indexMu[shard].Unlock()
+
+	idx, err := getCachedLabelIndex(d, v, origLabel)
+	if err != nil {
+		return nil, err
+	}
+	var moved *labels.Index
+	if idx != nil && len(idx.Blocks) != 0 {
+		moved = idx
+		moved.Label = newLabel
+		moved.LastMutid = mutID
+		moved.LastModUser = info.User
+		moved.LastModTime = info.Time
+		moved.LastModApp = info.App
+		if err := putCachedLabelIndex(d, v, moved); err != nil {
+			return nil, err
+		}
+	}
+	if err := deleteCachedLabelIndex(d, v, origLabel); err != nil {
+		dvid.Errorf("unable to delete index of renumbered label %d: %v\n", origLabel, err)
+	}
+	return moved, nil
+}
+
 // getMergedIndex gets index data for all labels in a set with possible bounds.
 func (d *Data) getMergedIndex(v dvid.VersionID, mergedIdxs map[uint64]*labels.Index, mutInfo dvid.MutInfo, bounds dvid.Bounds) (*labels.Index, error) {
 	combinedIdx := new(labels.Index)
